@@ -548,11 +548,15 @@ def _resolve_bad_swaps(swaps, edges, nlegs, ten1, ten2, axes1, axes2):
                 if edge in seen_edges:
                     continue
                 seen_edges.add(edge)
-                assert len(tp[C][ax]) == len(axes1), "Sanity check: all bad swaps for this edge should cross all contracted legs."
+                if len(tp[C][ax]) != len(axes1):
+                    raise YastnError("Swap gate crossing a subset of legs contracted together cannot be resolved in this order of contractions.")
                 for _key, _ in tp[C][ax]:
                     z2.discard(_key)
                 jump(t, ls, edge)
                 collect_same_tensor()
+
+    if any(tl in contracted for key in z2 for edge in key for tl in edge):
+        raise YastnError("Swap gate on a contracted leg cannot be resolved in this order of contractions.")
 
     # Convert back to list format for the caller (_shift_swaps_ mutates).
     remaining = [[[list(tl) for tl in key[0]],
